@@ -62,6 +62,10 @@ theorem gen_thread : Gen.C17.spRunTry = ["event = self._queue.get(block=True, ti
     Gen.C17.spSetVel = ["self._queue.put((velocity_x, velocity_y, velocity_z, rate_yaw))"] ∧
     Gen.C17.threadInit = ["self.update_period = update_period", "self._queue = Queue()", "self._cf = cf",
         "self._hover_setpoint = [0.0, 0.0, 0.0, 0.0]", "self._z_base = 0.0", "self._z_velocity = 0.0", "self._z_base_time = 0.0"] := by decide
+/-- `_new_setpoint` consists of four unconditional top-level assignments (no branch, loop, try or early return anywhere in it):
+base height, vertical velocity and base time are re-based for EVERY set-point, whether or not its vertical velocity changed -/
+theorem gen_new_setpoint : Gen.C17.spNewSetpointTargets = ["self._z_base", "self._z_velocity", "self._z_base_time", "self._hover_setpoint"] ∧
+    Gen.C17.spNewSetpointBranches = 0 := by decide
 theorem gen_period_pos : 0 < Gen.C17.UPDATE_PERIOD := by decide +kernel
 /-- the directions are the documented ones: x forward, y left, z up -/
 theorem gen_axes (d : Q) :
@@ -214,6 +218,24 @@ theorem height_integrates (st : Static) (c c' : Cfg) :
           ((∃ s rest, c.code = .setVel s :: rest ∧ c.flying = true ∧ cmdVz c'.thr.queue c'.thr.zVel = s.vz) ∨
            cmdVz c'.thr.queue c'.thr.zVel = cmdVz c.thr.queue c.thr.zVel)))) :=
   ⟨fun h ha => let r := height_clock c c' h ha; ⟨r.1, r.2.2⟩, height_thr st c c', height_main st c c'⟩
+
+/-- **setpoint_rebases_unconditionally.**  `height_integrates` holds for ARBITRARY consecutive set-points because the thread
+re-bases on every one of them: whatever the set-point `s` taken from the queue - in particular when `s.vz` EQUALS the vertical
+velocity already in force (repeated `start_up`, `start_linear_motion` with the same `vz`, no `stop` in between) - the new base
+height is the current height, the new velocity is `s.vz`, the new base time is now, the hover set-point sent carries the current
+height, and from then on the height is (height now) + `s.vz` x (time since): nothing climbed so far is dropped. -/
+theorem setpoint_rebases_unconditionally (st : Static) (c c' : Cfg) (s : SP) (q : List Ev) (ha : c.thr.alive = true)
+    (hq : c.thr.queue = .sp s :: q) (h : stepThr st c = some c') :
+    c'.thr.zBase = curZ c.thr c.now ∧ c'.thr.zVel = s.vz ∧ c'.thr.zT = c.now ∧ c'.thr.hz = curZ c.thr c.now ∧
+    ∀ t, curZ c'.thr t = curZ c.thr c.now + s.vz * (t - c.now) :=
+  new_setpoint_rebases st c c' s q ha hq h
+
+/-- non-vacuity, equal vertical velocities: climbing at 1/4 m/s since t = 0 from height 0, a second set-point with the SAME
+vz = 1/4 taken at t = 2 re-bases at height 1/2 (not 0), and 1 s later the height is 3/4 -/
+example : (stepThr (unrepaired 0)
+      { Cfg.start [] with now := 2, thr := { Thr.fresh true 2 with queue := [.sp ⟨1 / 8, 0, 1 / 4, 0⟩], zVel := 1 / 4 } }).map
+      (fun c => ([c.thr.zBase, c.thr.zVel, c.thr.zT, curZ c.thr 3], c.trace))
+    = some ([1 / 2, 1 / 4, 2, 3 / 4], [(2, Cmd.hover (1 / 8) 0 0 (1 / 2))]) := by decide +kernel
 
 /-! ## MotionCommander: each blocking primitive commands velocity x duration = requested displacement -/
 
